@@ -339,10 +339,12 @@ func (fc *FnCtx) exec(st *State, s ast.Stmt, label string) []Outcome {
 		var outs []Outcome
 		t := st.clone()
 		t.assume(c.T)
+		fc.branchCanary(t, s.Body.Pos(), "then")
 		outs = append(outs, fc.execBlock(t, s.Body.List)...)
 		f := st.clone()
 		f.assume(not(c.T))
 		if s.Else != nil {
+			fc.branchCanary(f, s.Else.Pos(), "else")
 			outs = append(outs, fc.exec(f, s.Else, "")...)
 		} else {
 			outs = append(outs, Outcome{kind: oNormal, st: f})
@@ -1192,11 +1194,13 @@ func (fc *FnCtx) execSwitch(st *State, s *ast.SwitchStmt, label string) []Outcom
 		c := or(conds...)
 		t := rem.clone()
 		t.assume(c)
+		fc.branchCanary(t, cc.Pos(), "case")
 		outs = append(outs, fc.execBlock(t, cc.Body)...)
 		rem = rem.clone()
 		rem.assume(not(c))
 	}
 	if deflt != nil {
+		fc.branchCanary(rem, deflt.Pos(), "default")
 		outs = append(outs, fc.execBlock(rem, deflt.Body)...)
 	} else {
 		outs = append(outs, Outcome{kind: oNormal, st: rem})
@@ -1258,11 +1262,13 @@ func (fc *FnCtx) execTypeSwitch(st *State, s *ast.TypeSwitchStmt, label string) 
 				}
 			}
 		}
+		fc.branchCanary(t, cc.Pos(), "case")
 		outs = append(outs, fc.execBlock(t, cc.Body)...)
 		rem = rem.clone()
 		rem.assume(not(c))
 	}
 	if deflt != nil {
+		fc.branchCanary(rem, deflt.Pos(), "default")
 		if bind != nil {
 			if obj := fc.info.Implicits[deflt]; obj != nil {
 				rem.vars[obj] = Val{xv.T, obj.Type()}
@@ -1301,9 +1307,14 @@ func (fc *FnCtx) execSelect(st *State, s *ast.SelectStmt, label string) []Outcom
 		}
 	}
 	var outs []Outcome
-	for _, c := range s.Body.List {
+	// which case runs is a free choice of the scheduler: a fresh selector makes the cases mutually exclusive, so that the
+	// join after the statement picks each case's effects under that case's own condition (the receive assumptions of
+	// two cases can hold together, and a join keyed on them would silently prefer the first case)
+	choice := fc.smt.fresh("selcase", "Int")
+	for ci, c := range s.Body.List {
 		cc := c.(*ast.CommClause)
 		t := st.clone()
+		t.assume(fmt.Sprintf("(= %s %d)", choice, ci))
 		live := []*State{t}
 		if cc.Comm != nil {
 			switch cm := cc.Comm.(type) {
@@ -1340,6 +1351,7 @@ func (fc *FnCtx) execSelect(st *State, s *ast.SelectStmt, label string) []Outcom
 			}
 		}
 		for _, l := range live {
+			fc.branchCanary(l, cc.Pos(), "select-case")
 			outs = append(outs, fc.execBlock(l, cc.Body)...)
 		}
 	}
